@@ -54,6 +54,8 @@ def replay_state(chk, store, st, pid, idx, protos):
     if store.from_handle and any(h[0] == 'pickle' for h in hist):
         return None       # an open file handle cannot be pickled by design
     base = store.load()
+    if idx % 2 == 0:
+        hr.fingerprint(base)          # every attribute asked once before the history starts (every other history)
     base00 = float(base[0, 0])
     objs = [base]
     lab = None
@@ -226,6 +228,7 @@ def main(chk, replay=None):
     heap_part(chk, 'C20', hr.Store(float_file=False))
     heap_part(chk, 'C20', hr.Store(float_file=False, from_handle=True))
     heap_part(chk, 'C20', hr.Store(minimal=True), thin=7 if chk.quick else 1)      # a file with the required keywords only
+    heap_part(chk, 'C20', hr.Store(time_channel=True), thin=7 if chk.quick else 1)      # acquisition time derived from the events
     if not chk.quick:
         heap_part(chk, 'C20', hr.Store(float_file=True))
     file_level(chk)
